@@ -27,6 +27,7 @@ structure ISess where
   expired : Bool
   reserved : Bool
   mode : String
+  port : Nat := 0
   slots : List (Option ISlot)
 deriving Repr, Inhabited
 
@@ -64,9 +65,10 @@ partial def parseSlots : List String → List (Option ISlot)
 
 def parseSess (chunk : String) : Option ISess :=
   match words chunk with
-  | u :: l :: c :: f :: m :: rest =>
+  | u :: l :: c :: f :: m :: pt :: rest =>
     some { uid := numAfter 1 u, lsid := numAfter 1 l, ctr := numAfter 1 c,
-           expired := f.startsWith "e", reserved := f.endsWith "r", mode := m, slots := parseSlots rest }
+           expired := f.startsWith "e", reserved := f.endsWith "r", mode := m, port := numAfter 1 pt,
+           slots := parseSlots rest }
   | _ => none
 
 def parseSnap (s : String) : ISnap :=
@@ -124,7 +126,7 @@ def tabOp (st : MSt) (w : List String) (implRes : String) : MSt × String :=
   match w.getD 0 "" with
   | "t" => ({ st with now := st.now + n 1 }, "ok")
   | "add" =>
-    let (t, r) := st.t.add (n 1) (n 2 != 0) st.now
+    let (t, r) := st.t.add (n 1) (n 2 != 0) st.now (n 3)
     match r with
     | .ok uid => ({ st with t := t }, s!"id {uid}")
     | .error e => ({ st with t := t }, errS e)
@@ -236,6 +238,20 @@ def tabOp (st : MSt) (w : List String) (implRes : String) : MSt × String :=
     match st.t.evictionUid st.now with
     | some u => let (t, _) := st.t.remove u; ({ st with t := t }, s!"id {u}")
     | none => (st, "none")
+  | "swa" | "swo" =>
+    let h : RxHdr := { ctr := 0, exch := n 3, initiator := w.getD 4 "" = "I", ack := none, reliable := false, newOk := true }
+    let (t, cleared) := if w.getD 0 "" = "swa" then st.t.sweepAccept (n 1) (n 2) h st.now
+                        else st.t.sweepOrphan (n 1) (n 2) h st.now
+    ({ st with t := t }, if cleared then "cleared" else "kept")
+  | "swd" =>
+    let t0 := if st.t.nextExch = 0 && iw.getD 0 "" = "sess" then { st.t with nextExch := ((iw.getD 2 "").toNat?).getD 1 } else st.t
+    let (t, o) := t0.sweepDropped st.now
+    ({ st with t := t }, match o with
+      | .nothing => "none"
+      | .closedSession _ xid ctr => s!"sess x {xid} ctr {ctr}"
+      | .closedExchange _ _ xid (some (ctr, ack)) => s!"exch ack {ack} ctr {ctr} x {xid}"
+      | .closedExchange _ _ _ none => "exch")
+  | "qchk" => (st, "ok")
   | "own" =>
     match st.t.sess (n 1) with
     | none => (st, "nosess")
